@@ -48,7 +48,6 @@ package core
 //@   pure-effects
 
 //@ func setExpires
-//@   requires fact != nil
 //@   ensures[C07.set_none]         !old(has(fact,"ttl")) && !old(has(fact,"expires")) ==> !result0 && result1 == 0 && result2 == nil
 //@   ensures[C07.set_ttl_removed]  result2 == nil ==> !has(fact,"ttl")
 //@   ensures[C07.set_ttl_float]    result2 == nil && old(has(fact,"ttl")) && old(is(fact["ttl"], float64)) ==>
